@@ -105,7 +105,11 @@ def _mask(text):
             i = j + 1
         else:
             i += 1
-    return "".join(out)
+    masked = "".join(out)
+    # `extern "C" {` / `}` inside #ifdef __cplusplus would unbalance the brace count
+    def blank(m):
+        return re.sub(r"[^\n]", " ", m.group(0))
+    return re.sub(r"#\s*ifdef\s+__cplusplus.*?#\s*endif", blank, masked, flags=re.S)
 
 
 def _match(masked, i, open_c, close_c):
